@@ -65,7 +65,8 @@ def check(case, ctx) -> Result:
     if case["latch"]:
         sink["latch_on"] = -1
     prog = {"mode": "rt", "max_wait_slice_us": 3600000000, "stmts": [{"id": "ps", "op": "push_src", "schema": schema, "policy": policy, "capacity": cap}, sink]}
-    rt = {"n_push": 1, "producers": case["producers"], "stop_after_us": case["stop_after_us"], "count_drain": policy != "conflating"}
+    rt = {"n_push": 1, "producers": case["producers"], "stop_after_us": case["stop_after_us"], "count_drain": policy != "conflating",
+          "value_drain": policy == "conflating"}
     if case["latch"]:
         rt["latch"] = {"v": -1}
     resp = ctx.request({"op": "realtime", "prog": prog, "rt": rt}, timeout=90)
@@ -150,9 +151,14 @@ def check(case, ctx) -> Result:
         sub = [v for v in acc_seq if v in pos]
         if [v for v in flat if v in accepted] != sub or any(v not in accepted for v in flat):
             out.append(("conflated_order_broken", f"conflating source delivered {flat} from accepted sequence {acc_seq}"))
-        last3 = [s["v"] for s in sends if s["ok"] and s["ph"] <= 3]
-        if last3 and (not flat or last3[-1] not in flat):
-            out.append(("latest_state_lost", f"the last value accepted before the stop race ({last3[-1]}) was never delivered; delivered {flat}"))
+        # the state that has to reach the graph: the value of a MAXIMAL accepted send of phases 1-3 (no other accepted send
+        # started after it had completed) - with racing producers any of them may have entered the source last. The
+        # harness waited for one of them to be seen by the sink before it let the stop race begin (no timing assumption
+        # other than the 20 s bound of that wait).
+        acc3 = [s for s in accepted.values() if s["ph"] <= 3]
+        maximal = [a["v"] for a in acc3 if not any(b["sb"] > a["sa"] for b in acc3)]
+        if acc3 and not any(v in pos for v in maximal):
+            out.append(("latest_state_lost", f"none of the last accepted values before the stop race ({maximal[:6]}) was ever delivered; delivered {flat}"))
     # capacity
     if cap > 0:
         over = [s for s in sends if s["pend"] is not None and s["pend"] > cap]
